@@ -27,6 +27,7 @@ fn gen(family: Family, universe: u32, weights: Vec<(Kd, u32)>) -> Gen {
         no_fill: false,
         fault_pct: 0,
         big_tables: false,
+        churn_draining: false,
         bands_plan: false,
         churn: None,
         order: Vec::new(),
